@@ -9,7 +9,7 @@ From TL Require Import Lib.Base Lib.GenTypes Gen.MagicGen Model.MagicNum Model.M
      Proofs.MagicChars Proofs.MagicExtract Proofs.MagicFacts Proofs.MagicTs Proofs.MagicRs Proofs.MagicPy Proofs.MagicMain.
 
 (* 1. Exactness, per language: for every quirk vector whose still-open language flags are off, every configuration
-      (allowed_numbers, max_small_integer, per-language sections, or the defaults) and every admissible file, the
+      (allowed_numbers, max_small_integer, per-language sections, or the defaults) and every admissible file (any file name, see 14), the
       reported list is exactly the demanded one (same entries, same multiplicities, same order).
       The flags q_py_bool_is_number, q_ts_hex_e_float, q_ts_bigint_dropped and q_rs_hex_suffix_clash are no longer
       hypotheses: with them on, the model uses the tables found in the (repaired) source, and the statement covers that. *)
@@ -163,6 +163,31 @@ Theorem C02_negative_allowed_inert : forall lg q cfg a f,
   flags_off lg q -> file_good lg f = true -> (fst a < 0)%Z -> report lg q (add_allowed a cfg) f = report lg q cfg f.
 Proof. exact negative_allowed_inert. Qed.
 Print Assumptions C02_negative_allowed_inert.
+
+(* 14. File names.  The theorems above hold for EVERY path (TypeScript / JavaScript, Rust) and for every Python path whose last
+       segment is <stem>.py with a dot-free stem (file_good asks nothing else of the name).  The two name-dependent Python tests
+       agree with the documented patterns on all those names: is_test_file (`startswith("test_")` / `"_test.py" in name`) with
+       test_*.py / *_test.py, the definition-module name test with *_codes.py / constants.py / *_constants.py in any letter case.
+       The restriction is tight: on a dotted stem the substring test and the documented pattern differ. *)
+Theorem C02_py_test_file_names : forall name, name_good MPy name = true -> py_is_test_file name = spec_is_test_file MPy name.
+Proof. exact py_test_name. Qed.
+Print Assumptions C02_py_test_file_names.
+
+Theorem C02_py_definition_file_names : forall name, def_name_match name = spec_def_name name.
+Proof. exact def_name_spec. Qed.
+Print Assumptions C02_py_definition_file_names.
+
+Example C02_names_nonvacuous :
+  forallb (name_good MPy) (name_pool MPy) && name_good MPy "/pkg_a/unit.test.d/TEST_helper_Codes.py" && name_good MPy "x.py" = true
+  /\ name_good MPy "/a_test.py.py" = false
+  /\ py_is_test_file "/a_test.py.py" = true /\ spec_is_test_file MPy "/a_test.py.py" = false.
+Proof. vm_compute. repeat split; reflexivity. Qed.
+
+(* floats without an integer part (.5, .25e3) are literals of Python and TypeScript / JavaScript, not of Rust *)
+Example C02_leading_dot_float :
+  lit_ok MPy (LFloat [] [2;5] (Some ((false, true), [3])) "") && lit_ok MTs (LFloat [] [5] None "") && negb (lit_ok MRs (LFloat [] [5] None "")) = true
+  /\ ts_extract true true (lit_chars (LFloat [] [2;5] (Some ((false, true), [3])) "")) = Some (25, 1)%Z.
+Proof. vm_compute. repeat split; reflexivity. Qed.
 
 (* non-vacuity: admissible files in the three languages with literals on both sides of the rule *)
 Definition ex_py : file :=
